@@ -119,3 +119,61 @@ func TestReplayIsExact(t *testing.T) {
 		}
 	}
 }
+
+// A polling loop that yields on every iteration must terminate under every
+// strategy, also the priority-based and fixed-order ones.
+func TestPollingLoopTerminates(t *testing.T) {
+	for strat := 0; strat < NumStrategies; strat++ {
+		for seed := uint64(1); seed < 40; seed++ {
+			flag := false
+			var mu Mutex
+			res := Run(Config{Seed: seed, Strategy: strat, StepCap: 5000}, func() {
+				GoNamed("setter", func() {
+					Yield()
+					mu.Lock()
+					flag = true
+					mu.Unlock()
+				})
+				for {
+					mu.Lock()
+					f := flag
+					mu.Unlock()
+					if f {
+						break
+					}
+					Gosched()
+				}
+			})
+			if res.End != "done" {
+				t.Fatalf("strategy %s seed %d: %s", StrategyNames[strat], seed, res.String())
+			}
+		}
+	}
+}
+
+// Polling under a lock without ever yielding voluntarily: the fairness guard
+// must let the other task in under the fixed-order strategies too.
+func TestBusyPollingUnderLockTerminates(t *testing.T) {
+	for strat := 0; strat < NumStrategies; strat++ {
+		flag := false
+		var mu Mutex
+		res := Run(Config{Seed: 7, Strategy: strat, StepCap: 20000}, func() {
+			GoNamed("setter", func() {
+				mu.Lock()
+				flag = true
+				mu.Unlock()
+			})
+			for {
+				mu.Lock()
+				f := flag
+				mu.Unlock()
+				if f {
+					break
+				}
+			}
+		})
+		if res.End != "done" {
+			t.Fatalf("strategy %s: %s", StrategyNames[strat], res.String())
+		}
+	}
+}
